@@ -382,7 +382,7 @@ def oracle(ctx, case, rig, drained):
     if drained and not rig.errors:
         missing = sorted(i for i, _, _ in jobs if count.get(i, 0) == 0)
         if missing:
-            ctx.violation("C11-job-not-submitted", f"job(s) {missing} never submitted although the monitor ran to quiescence with "
+            ctx.violation("C11-job-lost", f"job(s) {missing} never submitted although the monitor ran to quiescence with "
                           "everything stale", case, expected="every job submitted", actual=sorted(count), kind="interleaving")
             ok = False
     if rig.quiescent():
@@ -442,7 +442,31 @@ def witness_scripts():
     ]
 
 
+def overflow_scripts():
+    """Corpus beyond the model's counter-examples: a group larger than max_array_size is being handed off
+    (popped, first slice passed to the submit callback, lock released) while add_job adds a job of the SAME
+    description; the remainder and the new job must both survive the put-back."""
+    fill = [("S", "until", "if job.task.script"), ("S", "n", 1)]
+    out = []
+    for name, params, n0, stop in [
+        ("overflow-add-after-callback", (2, 2, 5), 3, [("M", "until", "self._submit_jobs(jobs)"), ("M", "n", 1)]),
+        ("overflow-add-before-callback", (1, 2, 5), 4, [("M", "until", "remainder = jobs")]),
+        ("overflow-add-after-callback-3", (2, 3, 0), 7, [("M", "until", "self._submit_jobs(jobs)"), ("M", "n", 1)]),
+    ]:
+        jobs = [(i, 0, False) for i in range(n0 + 2)]
+        script = fill * n0 + [("S", "until", "if job.task.script"), ("T", 100)] + stop + \
+            [("S", "n", 1), ("S", "until", "if job.task.script"),      # one whole add_job of the same description
+             ("M", "until", "self.num_pending -="), ("S", "run")]
+        out.append(dict(name=name, params=params, jobs=jobs, script=script))
+    return out
+
+
 def random_case(rng, size):
+    if rng.random() < 0.35:          # one description, more jobs than max_array_size: the put-back path
+        mn = rng.choice([1, 2, 2])
+        mx = mn + rng.choice([0, 0, 1])
+        nj = rng.randrange(mx + 1, max(mx + 2, size + 3))
+        return (mn, mx, rng.choice([-1, 0, 0, 1])), [(i, 0, False) for i in range(nj)]
     mn = rng.choice([0, 1, 2, 2, 2, 3])
     mx = mn + rng.choice([0, 1, 1, 2, 3])
     if mn == 0:
@@ -454,10 +478,35 @@ def random_case(rng, size):
     return (mn, mx, st), jobs
 
 
+HANDOFF = ("if len(jobs) > self.max_array_size", "remainder = jobs", "jobs = jobs[", "self._submit_jobs(jobs)",
+           "elif len(jobs) <", "for job in jobs", "self._submit_jobs([job])")
+
+
+def in_handoff(rig):
+    """the monitor has popped a group and not yet put back / counted it: the lock is free, add_job can run"""
+    lab = rig.next_label("M")
+    if lab is None or lab[0] != "submit_pending_jobs":
+        return False
+    if lab[1].startswith(HANDOFF):
+        return True
+    last = next((t[1] for t in reversed(rig.trace) if t[0] == "M"), None)
+    return lab[1].startswith("with self._lock") and last is not None and last[1].startswith("self._submit_jobs(jobs)")
+
+
 def random_schedule(rig, rng, nsteps):
     cur = "S"
     stick = rng.choice([0.3, 0.6, 0.8, 0.9])
+    adversarial = rng.random() < 0.5      # run whole add_job calls while the monitor is in the middle of a hand-off
     for _ in range(nsteps):
+        if adversarial and rig.next_label("S") is not None and in_handoff(rig) and rng.random() < 0.6:
+            for _k in range(40):
+                if not rig.do("S"):
+                    break
+                lab = rig.next_label("S")
+                if lab is None or lab[1].startswith("if job.task.script"):
+                    break
+            cur = "M"
+            continue
         r = rng.random()
         if r < 0.04:
             rig.do(("T", rng.choice([1, 1, 2, 5])))
@@ -521,6 +570,9 @@ def run(ctx):
         recs.append(r)
         if MODEL_CFG == "cur" and r["ok"]:      # the model of the code as found says this schedule fails
             ctx.expect_known(w["signature"], False, r["full"], "witness " + w["name"])
+    for w in overflow_scripts():
+        case = dict(params=list(w["params"]), jobs=[list(j) for j in w["jobs"]])
+        recs.append(exec_case(ctx, case, script=w["script"], tags=dict(kind="corpus-" + w["name"])))
     # 2. random pre-emption-bounded schedules
     n = ctx.n(150, 2500)
     for i in range(n):
